@@ -46,6 +46,18 @@ theorem export_import_id_on_value_keys (t : ParamTable) (h : t.Consistent)
   rw [export_import_value t h childExp hce dflt p f hf, PTree.get_eq_of_get?, hp]
   rfl
 
+/-- **Dotted paths.**  A struct nested at any depth exports below the prefix it is handed
+(`get(p, "precond.relax.")` → `p.put("precond.relax.damping", …)`): for every path prefix and every tree `acc`
+already holding other components' exports, the value found at `prefix.f` after the export is what the constructor
+read for `f`. -/
+theorem export_import_value_at_path (t : ParamTable) (h : t.Consistent) (dflt : String → String) (p : PTree)
+    (path : List String) (acc : PTree) (f : String) (hf : f ∈ t.valueFields) :
+    (t.exportValuesAt (t.importT dflt p) path acc).getPath? (path ++ [f]) = some (p.get f (dflt f)) := by
+  obtain ⟨hnd, _, h4, _⟩ := consistent_unpack h
+  rw [exportValuesAt_eq]
+  exact foldl_exportAt_mem _ path t.exports acc f _
+    (value?_importT t dflt p f (value_imported h hf)) (mem_exportValue t f (h4 f hf)) hnd
+
 /-- **Every value field is settable**: constructing from a tree that sets `f` to `v` yields a struct whose member
 `f` is `v`, whatever the default is. -/
 theorem value_field_settable (t : ParamTable) (h : t.Consistent) (dflt : String → String)
@@ -146,6 +158,9 @@ example : ChildLocal rawChildExp := rawChildExp_local
 example : exTree.get? "block_size" = some "3" := by decide
 example : (exTable.exportT rawChildExp (exTable.importT (fun _ => "d") exTree) PTree.empty).get? "block_size" = some "3" :=
   export_import_value exTable (by decide) rawChildExp rawChildExp_local _ exTree "block_size" (by decide)
+example : (exTable.exportValuesAt (exTable.importT (fun _ => "d") exTree) ["precond", "relax"] PTree.empty).getPath?
+    ["precond", "relax", "block_size"] = some "3" :=
+  export_import_value_at_path exTable (by decide) _ exTree _ _ "block_size" (by decide)
 example : exTable.unknownT exTree = ["bogus"] := by decide
 example : "bogus" ∈ exTree.keys ∧ "bogus" ∉ exTable.understood := by decide
 
